@@ -54,7 +54,7 @@ func init() {
 		Phases:      phases,
 		Run:         run,
 		Floors: func(t string) map[string]int64 {
-			return map[string]int64{"runs.free": 1000, "runs.perturbed": 300, "runs.forced": 200, "window.forced_observed": 100, "window.handshake_runs": 100, "doc.tiny": 30, "keep.tags": 100, "keep.bounds": 100, "keep.all": 100,
+			return map[string]int64{"runs.free": 1000, "runs.perturbed": 300, "runs.forced": 200, "window.forced_observed": 100, "window.handshake_runs": 100, "doc.tiny": 30, "doc.negative_ids": 20, "doc.ids_beyond_2^40": 20, "keep.tags": 100, "keep.bounds": 100, "keep.all": 100,
 				"order.shuffled": 20, "order.ways_first": 10, "order.reverse_cascade": 10, "doc.cascade": 30, "doc.relation_cycle": 10, "doc.dangling": 3, "filter.checked": 100, "gomaxprocs.16": 50, "format.pbf": 300, "format.xml": 1000}
 		},
 	})
@@ -247,6 +247,34 @@ func genDoc(c *core.Ctx, r *gen.R) *doc {
 			d.rels[r.Intn(nr)].Members = append(d.rels[r.Intn(nr)].Members, member{'w', 9998})
 		} else {
 			d.rels = append(d.rels, drel{ID: 299, Members: []member{{'n', 9997}}, Tags: []tag{{"k", "v"}}})
+		}
+	}
+	// id values: as generated (small positive), negated (editors number new objects -1, -2, ..
+	// independently per type), or beyond 2^40 / 2^53 (ids are 64-bit)
+	if idMode := r.Intn(5); idMode >= 3 {
+		var f func(id int64) int64
+		if idMode == 3 {
+			f = func(id int64) int64 { return -id }
+			c.Count("doc.negative_ids")
+		} else {
+			base := []int64{1 << 40, 1<<40 - 3, 1 << 53, 1<<62 - 5000}[r.Intn(4)]
+			f = func(id int64) int64 { return base + id }
+			c.Count("doc.ids_beyond_2^40")
+		}
+		for i := range d.nodes {
+			d.nodes[i].ID = f(d.nodes[i].ID)
+		}
+		for i := range d.ways {
+			d.ways[i].ID = f(d.ways[i].ID)
+			for k := range d.ways[i].Nodes {
+				d.ways[i].Nodes[k] = f(d.ways[i].Nodes[k])
+			}
+		}
+		for i := range d.rels {
+			d.rels[i].ID = f(d.rels[i].ID)
+			for k := range d.rels[i].Members {
+				d.rels[i].Members[k].Ref = f(d.rels[i].Members[k].Ref)
+			}
 		}
 	}
 	for i := range d.nodes {
